@@ -224,12 +224,13 @@ class CommitTap:
     performing the k-th writing commit."""
 
     def __init__(self, backend, I: Interner | None = None, snap_dir: str | None = None,
-                 crash_at: int | None = None, on_commit=None):
+                 crash_at: int | None = None, on_commit=None, crash_after: int | None = None):
         self.backend = backend
         self.session = backend.session
         self.I = I
         self.snap_dir = snap_dir
         self.crash_at = crash_at
+        self.crash_after = crash_after      # die right AFTER the k-th writing commit (before the next statement)
         self.on_commit = on_commit
         self.n = 0
         self.snaps: list[str] = []
@@ -265,6 +266,9 @@ class CommitTap:
             self.dumps.append(dump_db(self.db_path, self.I))
         if self.on_commit is not None:
             self.on_commit(self.n)
+        if self.crash_after is not None and self.n == self.crash_after:
+            self.crash_after = None
+            raise Crash(f"crash right after writing commit {self.n}")
 
     def _after_rollback(self, session):
         self._dirty = False
@@ -376,6 +380,38 @@ class OpTap:
         # the scheduler's subtree-task bookkeeping: what `_resolve_job_main_thread` makes of the finished children
         self._orig_resolve = scheduler._resolve_job_main_thread
         scheduler._resolve_job_main_thread = self._resolve
+        self._orig_reject = scheduler._reject_job_main_thread
+        scheduler._reject_job_main_thread = self._reject
+
+    def _reject(self, job, error, *a, **kw):
+        """a failed job: executed -> calc_subtree_tasks over its children; error served by CSE -> the subtree tasks the
+        backend recorded for its call node"""
+        I, r = self.I, self.repo
+        pre = None
+        if job is not None:
+            try:
+                cached = bool(job.call_hash) and bool(job.was_cached)
+                children = [(c.call_hash, sorted(I.id(t.hash) for t in c.subtree_tasks)) for c in job.child_jobs]
+                reg = sorted(I.id(h) for h in self.s.task_registry.task_hashes)
+                pre = dict(task=job.task.hash, call=job.call_hash, cached=cached)
+            except Exception as e:  # noqa: BLE001
+                self.events.append(dict(req=None, kind="harness-error", expect=repr(e), name="reject"))
+        out = self._orig_reject(job, error, *a, **kw)
+        if pre is not None:
+            try:
+                post = sorted({I.id(t.hash) for t in job.subtree_tasks})
+                if pre["cached"]:
+                    req = f"(cachedsub i{r} {_sxv(reg)} i{I.id(pre['task'])} F i{I.id(pre['call'])})"
+                    sig = "C03-cse-served-error-loses-subtree"
+                else:
+                    ch = " ".join(f"({_sxv(I.opt(c))} {_sxv(sub)})" for c, sub in children)
+                    req = f"(execsub i{I.id(pre['task'])} ({ch}))"
+                    sig = None
+                self.events.append(dict(req=req, kind="read", name="subtree_tasks", expect=post, dumps=[], err=None,
+                                        repo=r, mismatch_sig=sig))
+            except Exception as e:  # noqa: BLE001
+                self.events.append(dict(req=None, kind="harness-error", expect=repr(e), name="reject"))
+        return out
 
     def _resolve(self, job, result):
         I, r = self.I, self.repo
@@ -411,10 +447,11 @@ class OpTap:
                 delattr(self.b, name)
             except AttributeError:
                 pass
-        try:
-            del self.s._resolve_job_main_thread
-        except AttributeError:
-            pass
+        for nm in ("_resolve_job_main_thread", "_reject_job_main_thread"):
+            try:
+                delattr(self.s, nm)
+            except AttributeError:
+                pass
         self.tap.remove()
 
     # -- helpers
@@ -621,9 +658,9 @@ def compare_events(ctx, events, replies, case, tables=REC_TABLES, what="recordin
                     bad += 1
             elif ev["name"] == "subtree_tasks":
                 if sorted(set(got)) != ev["expect"]:
-                    ctx.mismatch("Job.subtree_tasks after _resolve_job_main_thread differs from the model's "
+                    ctx.mismatch("Job.subtree_tasks after _resolve/_reject_job_main_thread differs from the model's "
                                  "calc_subtree_tasks / _get_subtree_tasks", dict(case=case, req=ev["req"][:300]),
-                                 sorted(set(got)), ev["expect"])
+                                 sorted(set(got)), ev["expect"], **({"signature": ev["mismatch_sig"]} if ev.get("mismatch_sig") else {}))
                     bad += 1
             else:
                 if sorted(got) != ev["expect"]:
@@ -767,6 +804,76 @@ class TwinProgram:
             return [a, B(1, w(a))]
         self.tasks = {0: g, 1: f}
         return main_f if self.mode == "f" else main_twin
+
+    def task_hash(self, i):
+        return self.tasks[i].hash
+
+
+class FailProgram:
+    """S(shallow)(x) = catch_all([stage(x)], ValueError, recover); stage -> fetch; fetch raises ValueError while its
+    version is odd and returns x * 10 once it is even.  mode "single": main = S(3); mode "twin": main =
+    second(3, first(3)) where `first` (not shallow) runs the same catch_all before `second` (shallow), so that in
+    `second` the failed `stage(3)` is served by CSE.  Task indices for `edit`: 0 = fetch, 1 = stage."""
+
+    def __init__(self, mode="single", ns="gcfail"):
+        self.ns, self.mode = ns, mode
+        self.versions = [1, 1]
+        self.n = 2
+
+    def describe(self):
+        return dict(program="shallow S -> catch_all([stage]) ; stage -> fetch (fetch fails while its version is odd)",
+                    mode=self.mode, versions=list(self.versions))
+
+    def edit(self, i):
+        self.versions[i] += 1
+
+    def expected_main(self):
+        return "fallback" if self.versions[0] % 2 == 1 else [30]
+
+    def define(self):
+        from redun import task
+        from redun.scheduler import catch_all
+        ns, vf, vs = self.ns, self.versions[0], self.versions[1]
+
+        @task(name="fetch", namespace=ns, version=str(vf))
+        def fetch(x):
+            if vf % 2 == 1:
+                raise ValueError("boom")
+            return x * 10
+
+        @task(name="stage", namespace=ns, version=str(vs))
+        def stage(x):
+            return fetch(x)
+
+        @task(name="recover", namespace=ns, version="1")
+        def recover(error):
+            return "fallback"
+
+        @task(name="first", namespace=ns, version="1")
+        def first(x):
+            return catch_all([stage(x)], ValueError, recover)
+
+        @task(name="second", namespace=ns, version="1", check_valid="shallow")
+        def second(x, dep):
+            return catch_all([stage(x)], ValueError, recover)
+
+        @task(name="S", namespace=ns, version="1", check_valid="shallow")
+        def S(x):
+            return catch_all([stage(x)], ValueError, recover)
+
+        @task(name="main_single", namespace=ns, version="1")
+        def main_single():
+            return S(3)
+
+        @task(name="wait", namespace=ns, version="1")
+        def wait(x):
+            return 0
+
+        @task(name="main_twin", namespace=ns, version="1")
+        def main_twin():
+            return second(3, wait(first(3)))
+        self.tasks = {0: fetch, 1: stage}
+        return main_single if self.mode == "single" else main_twin
 
     def task_hash(self, i):
         return self.tasks[i].hash
@@ -941,6 +1048,8 @@ class Case:
         self.transferred = False
         self.snap_dir = None          # set to a directory to keep a file copy of every durable state of the next run
         self.last_snaps = []
+        self.backend_cfg = None       # extra [backend] configuration (e.g. value_store_path)
+        self.sig_override = None      # (signature, what) the oracle reports for a wrong result of this case
 
     def describe(self):
         return dict(label=self.label, program=self.prog.describe() if self.prog is not None else None, steps=self.steps)
@@ -951,12 +1060,12 @@ class Case:
             self.events.append(dict(req=f"(new i{r})", kind="ack", name="new"))
         return self.repos[r]
 
-    def run(self, r, crash_at=None, fault_k=None, fault_mode="commit"):
+    def run(self, r, crash_at=None, fault_k=None, fault_mode="commit", crash_after=None):
         """one scheduler process running `prog.main()` on repository `r`;
         returns (result | '!Err' | 'CRASH', where the fault fired, number of writing commits)"""
         path = self.repo(r)
-        s = new_scheduler(path)
-        tap = CommitTap(s.backend, self.I, snap_dir=self.snap_dir, crash_at=crash_at)
+        s = new_scheduler(path, self.backend_cfg)
+        tap = CommitTap(s.backend, self.I, snap_dir=self.snap_dir, crash_at=crash_at, crash_after=crash_after)
         op = OpTap(s, self.I, repo=r, tap=tap)
         op.clock = self.clock
         ft = FaultTap(s.backend, fault_k, fault_mode) if fault_k else None
@@ -988,7 +1097,8 @@ class Case:
                 self.events.append(dict(req=f"(dump i{r})", kind="crashdump", name="crash-outside", expect=dump))
         fired = ft.fired_at if ft else None
         self.last_fault_n = ft.n if ft else None
-        self.steps.append(("run", r, crash_at, fault_k, res if isinstance(res, str) else "ok", fired))
+        self.steps.append(("run", r, crash_at if crash_at is not None else (f"after{crash_after}" if crash_after else None),
+                           fault_k, res if isinstance(res, str) else "ok", fired))
         if self.on_result is not None:
             self.on_result(self, r, res, crash_at, fault_k, fired)
         return res, fired, tap.n
